@@ -154,6 +154,7 @@ type runner struct {
 	stats   map[string]int
 
 	hangCount map[string]int
+	slow      map[string]bool // learnt by the workers: fn \x00 pos \x00 token
 }
 
 func hangKeys(fns []fnInfo, p poolT, c pcase) []string {
@@ -181,6 +182,12 @@ func (r *runner) noteHang(fns []fnInfo, p poolT, cases []pcase, id int) {
 func (r *runner) hangs(fns []fnInfo, p poolT, cases []pcase, id int) bool {
 	r.mu.Lock()
 	defer r.mu.Unlock()
+	f := fns[cases[id].fn]
+	for i, t := range cases[id].tokens(p) {
+		if r.slow[f.key()+"\x00"+strconv.Itoa(i)+"\x00"+t] {
+			return true
+		}
+	}
 	for _, k := range hangKeys(fns, p, cases[id]) {
 		if r.hangCount[k] >= 2 {
 			return true
@@ -263,6 +270,12 @@ func (r *runner) spawn(fns []fnInfo, p poolT, cases []pcase, ids []int, solo boo
 	in := filepath.Join(r.workDir, fmt.Sprintf("w%06d.in", n))
 	out := filepath.Join(r.workDir, fmt.Sprintf("w%06d.out", n))
 	var b bytes.Buffer
+	r.mu.Lock()
+	for k := range r.slow {
+		ps := strings.Split(k, "\x00")
+		fmt.Fprintf(&b, "#slow\t%s\t%s\t%s\n", ps[0], ps[1], ps[2])
+	}
+	r.mu.Unlock()
 	for _, id := range ids {
 		c := cases[id]
 		f := fns[c.fn]
@@ -295,6 +308,14 @@ func (r *runner) spawn(fns []fnInfo, p poolT, cases []pcase, ids []int, solo boo
 		sc.Buffer(make([]byte, 1<<20), 1<<26)
 		for sc.Scan() {
 			l := sc.Text()
+			if strings.HasPrefix(l, "#slow\t") {
+				if ps := strings.Split(l, "\t"); len(ps) == 4 {
+					r.mu.Lock()
+					r.slow[ps[1]+"\x00"+ps[2]+"\x00"+ps[3]] = true
+					r.mu.Unlock()
+				}
+				continue
+			}
 			if i := strings.IndexByte(l, '\t'); i > 0 {
 				if id, e := strconv.Atoi(l[:i]); e == nil {
 					done[id] = l[i+1:]
@@ -417,7 +438,7 @@ func main() {
 	if cfg.Thorough() {
 		caseTimeout = 3 * time.Second
 	}
-	r := &runner{self: self, workDir: workDir, timeout: caseTimeout, memMB: 3072, stats: map[string]int{}, hangCount: map[string]int{}}
+	r := &runner{self: self, workDir: workDir, timeout: caseTimeout, memMB: 3072, stats: map[string]int{}, hangCount: map[string]int{}, slow: map[string]bool{}}
 
 	// direct (in-process) correspondence lines of the modelled helpers
 	directOps(o, pool)
@@ -552,6 +573,13 @@ func main() {
 		o.Stat("functions_modelled", nMod)
 		o.Stat("functions_skipped", len(skipFns))
 		o.Stat("pool_values", len(pool.vals))
+		nc := 0
+		for _, pv := range pool.vals {
+			if pv.core {
+				nc++
+			}
+		}
+		o.Stat("pool_core_values", nc)
 		o.Sample(fmt.Sprintf("registry: %d Go-registered + %d public jq-defined functions (+2 syntax ops), %d with an exact model; listing in #stat fn/<name>/<arity>/<go|jq>/<m|u>", nGo, nJq, nMod))
 	}
 	for k, v := range r.stats {
